@@ -283,7 +283,7 @@ impl SrtpKeyingMaterial {
                         // key and salt
                         take_while1(is_base64_char),
                         // lifetime
-                        opt(map(
+                        opt(map_res(
                             terminated(
                                 preceded(char('|'), tuple((opt(tag("2^")), number))),
                                 // Do not parse the mki here by mistake
@@ -291,9 +291,10 @@ impl SrtpKeyingMaterial {
                             ),
                             |(exp, n)| {
                                 if exp.is_some() {
-                                    2u32.pow(n)
+                                    // 2^n does not fit into the u32 lifetime for n >= 32
+                                    2u32.checked_pow(n).ok_or(())
                                 } else {
-                                    n
+                                    Ok(n)
                                 }
                             },
                         )),
